@@ -8,15 +8,16 @@ import servergen as sg
 PID = "C10"
 
 
-def client(rng, tags, cid, nsub, nplain_before, nplain_behind, lengths, ending, split):
+def client(rng, tags, cid, nsub, nplain_before, nplain_behind, lengths, ending, split, mores=None):
     """A client mixing streaming calls with plain calls before/behind them.
     Returns (arrival sequence, stream-event sequence, number of writes per call)."""
     frames, sevs = [], []
     for _ in range(nplain_before):
         frames.append(sg.call(rng.choice(["Echo", "Count", "Fail"]), cid, tags.next(), v=rng.randrange(0, 1000),
-                              oneway=rng.random() < 0.1))
+                              oneway=rng.random() < 0.1, more=rng.choice([False, False, True])))
     for j in range(nsub):
-        frames.append(sg.call("Sub", cid, tags.next(), more=True))
+        # whether the answer is a stream is the service's decision: the flag is absent, false or true
+        frames.append(sg.call("Sub", cid, tags.next(), more=mores[j] if mores else rng.choice(sg.MORE)))
         n = lengths[j]
         for i in range(n):
             # the service decides the flag: usually continues=true and false on the last item
@@ -26,7 +27,8 @@ def client(rng, tags, cid, nsub, nplain_before, nplain_behind, lengths, ending, 
             sevs.append(["se", cid])
         for _ in range(nplain_behind):
             frames.append(sg.call(rng.choice(["Echo", "Count", "Fail", "Ping"]), cid, tags.next(),
-                                  v=rng.randrange(0, 1000), oneway=rng.random() < 0.1))
+                                  v=rng.randrange(0, 1000), oneway=rng.random() < 0.1,
+                                  more=rng.choice([False, False, True, "false"])))
     stream = sg.wire(frames)
     if split == "one_burst":
         cuts = []
@@ -62,13 +64,15 @@ def gen_cases(ck):
             for before, behind in ((0, 0), (1, 0), (0, 2), (1, 1)):
                 for split in ("one_burst", "per_frame"):
                     tags = sg.Tags()
-                    seq, sevs = client(rng, tags, 0, 1, before, behind, [n], [ending], split)
+                    more = sg.MORE[(n + before + behind + (split == "per_frame") + ending) % 3]
+                    seq, sevs = client(rng, tags, 0, 1, before, behind, [n], [ending], split, mores=[more])
                     merges = list(sg.interleavings([seq, sevs]))
                     if len(merges) > (14 if quick else 200):
                         merges = rng.sample(merges, 14 if quick else 200)
                     for m in merges:
                         add(sg.with_polls(m, (1 << len(m)) - 1), [0], "one_conn_stream",
-                            {"len": n, "ending": ending, "before": before, "behind": behind, "split": split})
+                            {"len": n, "ending": ending, "before": before, "behind": behind, "split": split,
+                             "more": more})
                         add(sg.with_polls(m, 0), [0], "one_conn_stream_single_poll",
                             {"len": n, "ending": ending, "before": before, "behind": behind, "split": split})
     # (b) write failure at every item of a stream (and at the replies around it), other client unaffected
@@ -90,7 +94,7 @@ def gen_cases(ck):
                 tags = sg.Tags()
                 ev = []
                 for c in range(nconn):
-                    ev += [["n", c], ["a", c, sg.wire([sg.call("Sub", c, tags.next(), more=True),
+                    ev += [["n", c], ["a", c, sg.wire([sg.call("Sub", c, tags.next(), more=sg.MORE[(c + last) % 3]),
                                                        sg.call("Echo", c, tags.next(), v=c)]).hex()]]
                 ev += [["p"], ["si", last, 50, 1], ["p"]]
                 items = [["si", c, 60 + j, 1] for c in range(nconn) for j in range(n_items)]
